@@ -229,12 +229,14 @@ def run(corrupt=None):
                         got_p = float(dist.log_p(tree))
                         got_1 = float(dist.log_p_one(tree))
                         both = dist.compute_both_log_p_and_log_p_one(tree)
-                        th = TreeHolder(tree, dist, None)
+                        # a particle holder is only ever built from trees the samplers produce themselves - never from a
+                        # tree after relabel_nodes (whose "last node added to" bookkeeping still names an old label)
+                        th = TreeHolder(tree, dist, None) if vname != "relabelled_copy" else None
                         ck.evaluations += 4
                         rep = {"state": absstate.to_json(key), "alpha": alpha, "p_out": p_out, "sizes": sizes_of, "variant": vname, "dist": dname, "tables": tab.tolist()}
                         for nm, g, e in (("log_p", got_p, exp_p), ("log_p_one", got_1, exp_1), ("fused log_p", float(both[0]), exp_p),
-                                         ("fused log_p_one", float(both[1]), exp_1), ("particle log_p_one", float(th.log_p_one), exp_1),
-                                         ("particle log_p", float(th.log_p), exp_p)):
+                                         ("fused log_p_one", float(both[1]), exp_1)) + ((("particle log_p_one", float(th.log_p_one), exp_1),
+                                         ("particle log_p", float(th.log_p), exp_p)) if th is not None else ()):
                             dev = abs(g - e)
                             worst = max(worst, dev if math.isfinite(dev) else 1e9)
                             if not math.isfinite(g) or dev > 1e-9 * (1 + abs(e)):
